@@ -619,6 +619,160 @@ theorem admin_op_exact_P_full_false : ¬ admin_op_exact_P_full := by
 theorem witness_proposal_sweep :
     (mergeP (addMembersP (deliverP wAdmin0 wXRemove 0).1 5 20 21 [8]).1).1.g.members = [0, 1, 2, 8] := by decide
 
+/-! ### … at the level of `process_message` (every fuel, through rollback and re-processing) -/
+
+theorem ownMessage_res (c : Cl) (e ne : Ev) : (ownMessage c e).2 ≠ .proposalCommitted ne := by
+  unfold ownMessage
+  repeat' split
+  all_goals (intro h; simp [returnOwnCommit] at h)
+
+theorem notBetterResult_res (c : Cl) (e ne : Ev) : (notBetterResult c e).2 ≠ .proposalCommitted ne := by
+  unfold notBetterResult
+  repeat' split
+  all_goals (intro h; simp [returnOwnCommit, failUnprocessable] at h)
+
+theorem processCommitP_res (c : Cl) (e : Ev) (b : Body) (sw : List Nat) (ne : Ev) : (processCommitP c e b sw).2 ≠ .proposalCommitted ne := by
+  unfold processCommitP
+  repeat' split
+  all_goals (intro h; simp at h)
+
+/-- one pass: `Proposal(UpdateGroupResult)` comes out of `process_proposal` only -/
+theorem step1P_committed (retry : Cl → Option (Cl × Res)) (nx : Nat) (c : Cl) (x : PEv) (ne : Ev)
+    (hretry : ∀ c1 r, retry c1 = some r → r.2 = .proposalCommitted ne → propKind x ≠ none)
+    (h : (step1P retry nx c x).2 = .proposalCommitted ne) :
+    ∃ p, propKind x = some p ∧ c.g.active = true ∧
+      (processProposal nx { withSecret c with g := { (withSecret c).g with consumed := x.e.cipher :: (withSecret c).g.consumed } } x.e p).2 = .proposalCommitted ne := by
+  unfold step1P at h
+  simp only at h
+  split at h
+  · simp at h
+  · split at h
+    · simp at h
+    · rename_i _ hact
+      split at h
+      · simp at h
+      · split at h
+        · rename_i p hp
+          split at h
+          · simp [failUnprocessable] at h
+          · split at h
+            · exact absurd h (ownMessage_res _ _ _)
+            · split at h
+              · simp [failUnprocessable] at h
+              · exact ⟨p, hp, by simpa using hact, h⟩
+        · rename_i hp
+          split at h
+          · -- a commit: whatever comes back from the re-processing is the same (non-proposal) event's result
+            split at h
+            · unfold wrongEpochCommit at h
+              split at h
+              · split at h
+                · split at h
+                  · rename_i c1 _ _ r hr
+                    exact absurd hp (hretry c1 r hr h)
+                  · exact absurd h (notBetterResult_res _ _ _)
+                · exact absurd h (notBetterResult_res _ _ _)
+              · exact absurd h (notBetterResult_res _ _ _)
+            · split at h
+              · split at h
+                · simp at h
+                · exact absurd h (ownMessage_res _ _ _)
+              · split at h
+                · simp [failUnprocessable] at h
+                · split at h
+                  · simp [failUnprocessable] at h
+                  · exact absurd h (processCommitP_res _ _ _ _ _)
+          · simp [failUnprocessable] at h
+          · split at h
+            · simp [failUnprocessable] at h
+            · split at h
+              · simp [failUnprocessable] at h
+              · split at h
+                · exact absurd h (ownMessage_res _ _ _)
+                · split at h
+                  · simp [failUnprocessable] at h
+                  · simp [storeApp] at h
+
+/-- what `auto_commit_only_self_leave_deliver` concludes about receiver `c`, event `x` and the staged commit `ne` -/
+def AutoOK (c : Cl) (x : PEv) (ne : Ev) : Prop :=
+  propKind x = some (.remove x.e.sender) ∧ c.g.active = true ∧ isAdmin c.g c.id = true ∧ c.g.pending = none ∧
+  ne.sender = c.id ∧ ne.path = c.g.path ∧ ne.kind = .commit .selfUpdate ((x.e.sender :: c.g.props).eraseDups) ∧
+  ne.sweptX = c.g.xq ∧ c.id ∉ (x.e.sender :: c.g.props).eraseDups
+
+theorem deliverOnceP_committed (retry : Cl → Option (Cl × Res)) (nx : Nat) (c : Cl) (x : PEv) (ne : Ev)
+    (hretry : ∀ c1 r, retry c1 = some r → r.2 = .proposalCommitted ne → propKind x ≠ none)
+    (h1 : (deliverOnceP retry nx c x).2 = .proposalCommitted ne) : AutoOK c x ne := by
+  have h2 : (step1P retry nx c x).2 = .proposalCommitted ne := by
+    unfold deliverOnceP at h1
+    split at h1
+    · split at h1
+      · split at h1 <;> simp at h1
+      · exact h1
+    · exact h1
+  obtain ⟨p, hp, hact, hpp⟩ := step1P_committed retry nx c x ne hretry h2
+  obtain ⟨h1, h2, h3, h4, h5, h6, h7, _, _, h9, _⟩ := auto_commit_only_self_leave nx _ x.e p ne hpp
+  subst h1
+  exact ⟨hp, hact, by simpa [isAdmin] using h2, by simpa using h3, h4, by simpa using h5, by simpa using h6,
+    by simpa using h7, by simpa using h9⟩
+
+/-- **auto_commit_only_self_leave**, for `process_message` as a whole (every state, event, fuel): the call answers
+    `Proposal(UpdateGroupResult)` — a commit was staged without anybody asking the application — ONLY for a member's Remove
+    of its own leaf, at an active admin with no commit pending; the staged commit is the receiver's own, created in its
+    current state, and references the sender's leave, the leaves queued before and the rest of the store -/
+theorem auto_commit_only_self_leave_deliver (fuel nx : Nat) (c : Cl) (x : PEv) (ne : Ev)
+    (h : (deliverNP fuel nx c x).2 = .proposalCommitted ne) : AutoOK c x ne := by
+  induction fuel generalizing c with
+  | zero => exact deliverOnceP_committed _ nx c x ne (by intro c1 r hr; cases hr) h
+  | succ f ih =>
+    refine deliverOnceP_committed _ nx c x ne ?_ h
+    intro c1 r hr hrr
+    have : r = deliverNP f nx c1 x := by simpa using hr.symm
+    subst this
+    rw [(ih c1 hrr).1]; simp
+
+/-- `proposal_never_changes_roster` for `process_message` as a whole (dedup step included, every fuel): "proposals never take
+    effect by themselves" -/
+theorem proposal_never_changes_roster_deliver (fuel nx : Nat) (c : Cl) (x : PEv) (p : PK) (hk : propKind x = some p) :
+    (deliverNP fuel nx c x).1.g.path = c.g.path ∧ (deliverNP fuel nx c x).1.g.members = c.g.members ∧
+    rosterAndData (deliverNP fuel nx c x).1.g = rosterAndData c.g := by
+  have key : ∀ retry, (deliverOnceP retry nx c x).1.g.path = c.g.path ∧ (deliverOnceP retry nx c x).1.g.members = c.g.members ∧
+      rosterAndData (deliverOnceP retry nx c x).1.g = rosterAndData c.g := by
+    intro retry
+    have h := proposal_never_changes_roster retry nx c x p hk
+    have h' : rosterAndData (step1P retry nx c x).1.g = rosterAndData c.g := by
+      simp [rosterAndData, dataOf, h.2.1, h.2.2.1, h.2.2.2.1, h.2.2.2.2.1, h.2.2.2.2.2.1, h.2.2.2.2.2.2]
+    unfold deliverOnceP
+    split
+    · split
+      · exact ⟨rfl, rfl, rfl⟩
+      · exact ⟨h.1, h.2.1, h'⟩
+    · exact ⟨h.1, h.2.1, h'⟩
+  cases fuel with
+  | zero => exact key _
+  | succ f => exact key _
+
+/-! ### the tie between the two client models (proved in Proofs/Proposal.lean, restated so that they are obligations of this
+    property): where no queued proposal is involved `Model.Proposal` IS `Model.Client`, so the theorems of C01 / C02 / C06 / C07 /
+    C08 / C11 about `deliver` speak about the function the driver runs -/
+theorem proposal_model_agrees_with_client (fuel nx : Nat) (c : Cl) (e : Ev) (hc : PendClean c) (hk : OldKind c.id e) :
+    deliverNP fuel nx c { e := e } = deliverN fuel nx c e := deliverNP_agrees fuel nx c e hc hk
+
+theorem proposal_model_agrees_leave_nonadmin (r1 r2 : Cl → Option (Cl × Res)) (nx : Nat) (c : Cl) (e : Ev) (hk : e.kind = .leave)
+    (hna : isAdmin c.g c.id = false) : step1P r1 nx c { e := e } = step1 r2 nx c e := step1P_leave_nonadmin r1 r2 nx c e hk hna
+
+theorem proposal_model_agrees_ops (c : Cl) (n ts idn : Nat) :
+    (∀ b na, c.g.xq = [] → c.g.props.contains c.id = false → stageCommitP c n ts idn b na = stageCommit c n ts idn b na) ∧
+    (∀ mid mts tok, c.g.xq = [] → sendP c n ts idn mid mts tok = send c n ts idn mid mts tok) ∧
+    (PendClean c → mergeP c = merge c) :=
+  ⟨fun b na h1 h2 => stageCommitP_agrees c n ts idn b na h1 h2, fun mid mts tok h => sendP_agrees c n ts idn mid mts tok h,
+   fun h => mergeP_agrees c h⟩
+
+/-- non-vacuity: the chain / fork witnesses of C01 and C06 are such events at such clients -/
+example : PendClean C06.wAfterGood ∧ OldKind C06.wAfterGood.id C06.wEvil ∧ OldKind 2 C06.wGood := by
+  refine ⟨⟨by decide, by decide⟩, ⟨rfl, ?_⟩, ⟨rfl, ?_⟩⟩
+  · show [] = [] ∧ removesMe C06.wAfterGood.id _ [] = false; exact ⟨rfl, rfl⟩
+  · show [] = [] ∧ removesMe 2 _ [] = false; exact ⟨rfl, rfl⟩
+
 end Proposals
 
 end MdkVerif.Props.C05
